@@ -45,7 +45,8 @@ def mailargs_cases(tier, rng):
     bad = {"SIZE": b"SIZE=-1", "BODY": b"BODY=9BIT", "RET": b"RET=NONE", "ENVID": b"ENVID=a+2", "AUTH": b"AUTH=+ZZ", "X": b"XYZ=1",
            "EQ": b"SIZE=1=2", "ENVID2": b"ENVID="}
     rgood = {"NOTIFY": b"NOTIFY=SUCCESS,FAILURE", "ORCPT": b"ORCPT=rfc822;o+40x", "ORCPTU": b"ORCPT=utf-8;o\\x{E9}@x", "RRVS": b"RRVS=2020-01-02T03:04:05Z",
-             "RRVS2": b"RRVS=2020-02-29T23:59:59+05:30;C"}
+             "RRVS2": b"RRVS=2020-02-29T23:59:59+05:30;C", "ORCPT;": b"ORCPT=rfc822;bob;ext@example.com", "ORCPT;;": b"ORCPT=rfc822;bob@example.com;",
+             "ORCPTU;": b"ORCPT=utf-8;g\\x{3D}bob;s\\x{3D}smith@example.com", "ENVID;": b"RRVS=2020-01-02T03:04:05Z;C;x"}
     rbad = {"NOTIFY": b"NOTIFY=NEVER,SUCCESS", "NOTIFY2": b"NOTIFY=", "ORCPT": b"ORCPT=x400;a", "ORCPT2": b"ORCPT=rfc822;", "RRVS": b"RRVS=2021-02-29T00:00:00Z",
             "X": b"FOO"}
     flagsets = [dict(), dict(utf8=1, reqtls=1, binmime=1, dsn=1, rrvs=1), dict(dsn=1), dict(utf8=1, binmime=1), dict(rrvs=1, reqtls=1)]
